@@ -41,7 +41,7 @@ fn misplaced(v: &[Stmt]) -> bool {
 }
 
 fn check(c: &Case, info: &mut CaseInfo) -> CheckResult {
-    let text = print_prog(&c.prog);
+    let text = crate::c22::text_of(c);
     let any_misplaced = c.prog.commands.iter().any(|c| misplaced(&c.policy) || c.recalls.iter().any(|r| misplaced(&r.body)));
     let module = match compile_module(&text) {
         Ok(m) => m,
@@ -124,7 +124,7 @@ pub fn run(ctx: &Ctx) -> ! {
     let mut rep = Report::new(ctx, "exploration");
     rep.assume("in this language version `check` requires a terminal else expression, so ExitReason::Check is reachable only through `recall`; the clause 'failed check without recall changes nothing' has no reachable instance and is covered by the panic clause (check … else todo())");
     rep.assume("runs that end in an I/O error (create of an existing fact, delete/update of a missing one) are not constrained by the statement beyond 'no write before a finish marker'");
-    let n = ctx.pick(5_000, 120_000);
+    let n = ctx.pick(12_000, 240_000);
     rep.explore(
         "command_policies",
         "generated command policies (let/check-else-recall|todo/debug_assert/if/match with finish blocks, recall statements, recall blocks with arguments, finish functions, initial facts) run with a recording I/O: panic => no fact write/effect and unchanged facts; check exit => went through a recall and every effect recalled; normal exit => no recall, no recalled effect; no Create/Update/Delete/Emit instruction before a Meta::Finish marker; stepped run == call_command_policy; non-trivial = a run with I/O events in a program with recall blocks",
